@@ -83,7 +83,7 @@ def main():
     start = int(sys.argv[sys.argv.index("--start") + 1]) if "--start" in sys.argv else 0
     stride = int(sys.argv[sys.argv.index("--stride") + 1]) if "--stride" in sys.argv else 1
     files = sys.argv[sys.argv.index("--files") + 1].split(",") if "--files" in sys.argv else list(FILES)
-    env = dict(os.environ, VERIF_OP_TIMEOUT="5")
+    env = dict(os.environ, VERIF_OP_TIMEOUT="5", VERIF_EVIDENCE_DIR=os.path.join(verif, "out", "evidence-scratch"))
     total = caught = nobuild = survived = 0
     n = 0
     for f in files:
